@@ -246,6 +246,9 @@ def replay_session(task):
     rng = random.Random(seed)
     version = seed % 2 == 0          # every other session: a server without RENAMESCRIPT/CHECKSCRIPT (rename is emulated)
     c, s = M.connected_client(d, plan=lambda bts: C_split(bts, rng), version=version)
+    if seed % 3 == 1:
+        # another Client object connects, after this one, to a server with the *other* capability set and stays open
+        other = M.connected_client(lambda w, sock: b'NO "other server"\r\n', version=not version)
     for op, a, b, refuse, enc, decor in script:
         if op == "checkscript" and not version:
             continue
